@@ -15,11 +15,22 @@
 //     wrapped: only constants are added to lengths); constants are folded by go/types;
 //   - float64 / float32 and their operations are Section variables (F64, F32, fadd, to32, ...);
 //   - slices are lists; l[i], l[i:], l[i] = v, make are partial (None = run-time panic);
-//   - statements: := = op= ++, var, if/else with init, return, for-range over slices and
-//     channels, `for sc.Scan()`, `for i := a; i < n; i += k`, defer x.Close()/wg.Done() (ignored),
-//     fmt.Printf (ignored), closures assigned to a local (lambda-lifted), the writer pattern
+//   - statements: := = op= ++, var, local const, if/else with init, switch (tagless and tagged,
+//     no fallthrough / break) as the chain of ifs, return, for-range over slices, arrays, ints
+//     and channels, `for sc.Scan()`, `for i := a; i < n; i += k`, `continue`,
+//     defer x.Close()/wg.Done() (ignored), fmt.Printf (ignored), closures assigned to a local
+//     (lambda-lifted), the writer pattern
 //     `c := make(chan ..); go func(){ for x := range c {..} }(); return c, nil` (the goroutine
 //     body is the function, the channel the list of batches it receives);
+//   - a function that writes through a pointer / slice parameter (`func fill(d *T, ..)`) returns
+//     the final value of that parameter after its results and the receiver; the caller stores it
+//     back into the argument (`fill(&d, ..)`).  A write through a local that may share memory
+//     with another variable (a range value of pointer type, `p := q`, `p := &x`) is an error;
+//   - normal forms, so that equivalent spellings give the same term (loops.go): index loops over
+//     len(X) are range loops, X[i] inside `for i := range X` is the element, loops over arrays
+//     and short constant loops are unrolled with the index known to the translator (conditions
+//     on it are decided), `if !c {A} else {B}` is `if c {B} else {A}`, make([]T, 0, c) and
+//     make([]T, 0) are the empty list;
 //   - library calls are Section variables with a fixed signature (table in prims.go); the file
 //     a function opens is the world threaded through every call that touches it.
 //
@@ -221,20 +232,23 @@ func (l *layoutT) coq() string {
 // ---------------------------------------------------------------- generator state
 
 type gen struct {
-	fset    *token.FileSet
-	pkgs    map[string]*packages.Package
-	repo    string
-	layouts map[string]*layoutT // by type name (package render)
-	lorder  []string
-	decls   map[*types.Func]*ast.FuncDecl
-	declPkg map[*types.Func]*packages.Package
-	funcs   map[*types.Func]*fnInfo
-	busy    map[*types.Func]bool
-	out     []string // definitions, in dependency order
-	used    map[string]bool
-	errSite int
-	scan    map[*types.Func]*scanInfo
-	extra   []string // extra generated data definitions
+	fset     *token.FileSet
+	pkgs     map[string]*packages.Package
+	repo     string
+	layouts  map[string]*layoutT // by type name (package render)
+	lorder   []string
+	decls    map[*types.Func]*ast.FuncDecl
+	declPkg  map[*types.Func]*packages.Package
+	funcs    map[*types.Func]*fnInfo
+	busy     map[*types.Func]bool
+	out      []string // definitions, in dependency order
+	used     map[string]bool
+	errSite  int
+	scan     map[*types.Func]*scanInfo
+	extra    []string // extra generated data definitions
+	isTarget map[*types.Func]bool
+	forceRes map[*types.Func]bool // targets translated as `res` whatever their body
+	helpers  []string             // Coq names of translated functions that are not targets
 }
 
 type fnInfo struct {
@@ -242,6 +256,7 @@ type fnInfo struct {
 	res     bool   // returns a res (may panic / returns an error / loops)
 	world   bool   // takes and returns the world
 	mutRecv bool   // pointer receiver is updated and returned
+	mutPar  []int  // parameters (pointer / slice) written through: their final values are returned after the receiver
 	params  []*types.Var
 	results []*cty // non-error, non-token Go results
 	hasErr  bool
@@ -413,7 +428,7 @@ func (g *gen) zero(t *cty) (string, error) {
 	case kBool:
 		return "false", nil
 	case kError:
-		return "None", nil
+		return "(None : error)", nil
 	case kList, kMap:
 		return "[]", nil
 	case kSlots:
